@@ -159,6 +159,43 @@ pub fn c10(ctx: &Ctx, subj: &dyn DynSubject, ty: &Ty, rep: &mut Report) {
                 return Err(Fail::new(&format!("header-eps:{}", expect_name(&x)), format!("{} -> expected {} from deserialize_eps, but {}", what, expect_name(&x), e)).env(json!({"mutation": what, "mode": "eps"})));
             }
         }
+        // the file loaders go through the same header check: the reversed cookie and a few generated mutations,
+        // stored in a file, must be classified in the same way by each of them
+        // (not for alignment units above 64 bytes, which the loaders refuse before looking at the file)
+        if light() || ctx.u.label == "wide" {
+            return Ok(());
+        }
+        let path = ctx.tmp.join(format!("c10-{}-{:?}.bin", subj.index(), std::thread::current().id()).replace(['(', ')'], ""));
+        let mut picks = vec![FIXED_HEADER * 8];
+        for _ in 0..4 {
+            picks.push(ent.pick(muts.len()));
+        }
+        for n in picks {
+            let (what, head) = &muts[n];
+            let mut mutated = bytes.clone();
+            mutated[..FIXED_HEADER].copy_from_slice(head);
+            let x = expectation(&bytes, &mutated);
+            std::fs::write(&path, &mutated).map_err(|e| Fail::new("harness:tmpfile", format!("cannot write temp file: {}", e)))?;
+            for loader in [Loader::LoadFull, Loader::LoadMem, Loader::LoadMmap, Loader::Mmap] {
+                if !cfg!(feature = "mmap") && matches!(loader, Loader::LoadMmap | Loader::Mmap) {
+                    continue;
+                }
+                log.extra_evals += 1;
+                let r = guard(|| subj.load(loader, &path, 0, crate::Script::Direct));
+                let verdict = match r {
+                    Err(p) => Err(format!("panicked: {}", p)),
+                    Ok(Ok(o)) => matches_expect(&Ok(o.val), &x, v, (tname, tname)),
+                    Ok(Err(e)) => match e.downcast::<deser::Error>() {
+                        Ok(de) => matches_expect(&Err(de), &x, v, (tname, tname)),
+                        Err(other) => Err(format!("an error that is not a deserialization error: {:#}", other)),
+                    },
+                };
+                if let Err(e) = verdict {
+                    return Err(Fail::new(&format!("header-{:?}:{}", loader, expect_name(&x)), format!("{} (stored in a file) -> expected {} from {:?}, but {}", what, expect_name(&x), loader, e)).env(json!({"mutation": what, "mode": format!("{:?}", loader)})));
+                }
+            }
+        }
+        std::fs::remove_file(&path).ok();
         Ok(())
     });
 }
